@@ -16,6 +16,9 @@ for line in open("/verif/seeded/RESULTS.md"):
 import os
 for sid, chk in sorted(seen.items()):
     if os.path.exists(f"/verif/seeded/{sid}/patch.diff"):
+        import json
+        if "obsolete_since" in json.load(open(f"/verif/seeded/{sid}/meta.json")):
+            continue
         print(sid, chk)
 PY
 cat /tmp/selftest_list.txt | xargs -P "$J" -L 1 bash -c 'S=$0; C=$1; O=$(bash tools/try_seed.sh seeded/$S/patch.diff $C 2>&1 | grep "violations="); V=$(echo "$O" | sed "s/.*violations=\([0-9]*\).*/\1/"); if [ "$V" != "0" ] && [ -n "$V" ]; then echo "$S $C CAUGHT ($V)"; else echo "$S $C MISSED  $O"; fi'
